@@ -11,10 +11,40 @@ Section W.
   Notation handle := (handle kdf life_ms).
   Notation authorised := (authorised kdf life_ms).
 
+  (* ---- proof automation ---- *)
+  Ltac step :=
+    match goal with
+    | |- context[is_empty ?x] => destruct (is_empty x) eqn:?; cbn [orb andb negb]
+    | |- context[beq ?u ?v] => destruct (beq u v) eqn:?; cbn [orb andb negb]
+    | |- context[negb ?a] => is_var a; destruct a; cbn [orb andb negb]
+    | |- context[match ?x with _ => _ end] =>
+        lazymatch x with
+        | context[match _ with _ => _ end] => fail
+        | _ => destruct x eqn:?
+        end
+    end.
+
+  Ltac open_handle :=
+    unfold WebApi.handle, WebApi.authorised, admin_gate, session_of, status_of;
+    repeat step.
+
+  Ltac failed_ops :=
+    repeat match goal with
+    | H : add_user _ _ _ _ _ _ _ = (_, RErr) |- _ => apply failed_add_unchanged in H; subst
+    | H : update_user _ _ _ _ _ _ = (_, RErr) |- _ => apply failed_update_unchanged in H; subst
+    | H : set_admin _ _ _ = (_, RErr) |- _ => apply failed_set_admin_unchanged in H; subst
+    end.
+
+  Ltac rsimp := unfold resp; cbn [with_dir w_dir w_cfg w_log r_status r_list r_session fst snd].
+  Ltac rsimp_all := unfold resp in *; cbn [with_dir w_dir w_cfg w_log r_status r_list r_session fst snd] in *.
+
+  Lemma with_dir_same s : with_dir s (w_dir s) = s.
+  Proof. destruct s as [c d l]. reflexivity. Qed.
+
   (* a body that does not decode: 400, nothing changes, nothing disclosed *)
   Theorem malformed_refused s ep o :
     handle s ep None o = (resp 400, s).
-  Admitted.
+  Proof. reflexivity. Qed.
 
   (* every request that is not authorised gets a non-success status, no list,
      no session token, and leaves the whole state (store, configuration,
@@ -22,7 +52,10 @@ Section W.
   Theorem unauthorised_refused s ep b o :
     authorised s ep b o = false ->
     exists st, handle s ep (Some b) o = (resp st, s) /\ st <> 200.
-  Admitted.
+  Proof.
+    destruct ep; open_handle; intros Ha; try discriminate Ha;
+      (eexists; split; [reflexivity|discriminate]).
+  Qed.
 
   (* empty-field requests are refused whatever credential they carry *)
   Definition has_empty_field (ep : endpoint) (b : body) : bool :=
@@ -39,48 +72,69 @@ Section W.
 
   Theorem empty_field_refused s ep b o :
     has_empty_field ep b = true -> handle s ep (Some b) o = (resp 400, s).
-  Admitted.
+  Proof.
+    destruct ep; unfold has_empty_field; open_handle; intros He; try discriminate He; reflexivity.
+  Qed.
 
   (* hence: an effect on the store implies an authorised request *)
   Theorem effect_only_if_authorised s ep bd o rp s' :
     handle s ep bd o = (rp, s') -> w_dir s' <> w_dir s ->
     exists b, bd = Some b /\ authorised s ep b o = true /\ has_empty_field ep b = false.
-  Admitted.
+  Proof.
+    destruct bd as [b|]; [|cbn; intros [= <- <-] Hd; now elim Hd].
+    intros H Hd. exists b. split; [reflexivity|]. revert H Hd.
+    destruct ep; unfold has_empty_field; open_handle; intros [= <- <-] Hd; failed_ops;
+      cbn [with_dir w_dir] in Hd; try (now elim Hd);
+      (split; reflexivity).
+  Qed.
 
   (* a user list is disclosed only to an admin session *)
   Theorem list_only_to_admin s ep bd o rp s' :
     handle s ep bd o = (rp, s') -> r_list rp = true ->
     exists b u, bd = Some b /\ (ep = EList \/ ep = EListFull) /\
                 check (w_log s) (session_life_ns life_ms) (wo_now_ns o) (b_session b) = Accept u true.
-  Admitted.
+  Proof.
+    open_handle; intros [= <- <-] Hl; rsimp_all; try discriminate Hl;
+      unfold chk in *; eauto 10.
+  Qed.
 
   (* the effect of an authorised request is exactly the store operation *)
   Theorem add_effect s b o rp s' :
     handle s EAdd (Some b) o = (rp, s') -> r_status rp = 200 ->
     (w_dir s', ROk) = add_user kdf (w_cfg s) (w_dir s) (b_username b) (b_password b) (b_admin b) (wo_store o) /\
     w_cfg s' = w_cfg s /\ w_log s' = w_log s.
-  Admitted.
+  Proof.
+    open_handle; intros [= <- <-] Hst; rsimp_all; try discriminate Hst; auto.
+  Qed.
 
   Theorem update_effect s b o rp s' :
     handle s EUpdate (Some b) o = (rp, s') -> w_dir s' <> w_dir s ->
     (w_dir s', ROk) = update_user kdf (w_cfg s) (w_dir s) (b_username b) (b_new b) (wo_store o) /\
     w_cfg s' = w_cfg s /\ w_log s' = w_log s.
-  Admitted.
+  Proof.
+    open_handle; intros [= <- <-] Hd; failed_ops; rsimp_all; try (now elim Hd); auto.
+  Qed.
 
   Theorem remove_effect s b o rp s' :
     handle s ERemove (Some b) o = (rp, s') -> r_status rp = 200 ->
     w_dir s' = remove_user (w_dir s) (b_username b) /\ w_cfg s' = w_cfg s /\ w_log s' = w_log s.
-  Admitted.
+  Proof.
+    open_handle; intros [= <- <-] Hst; rsimp_all; try discriminate Hst; auto.
+  Qed.
 
   Theorem set_admin_effect s b o rp s' :
     handle s ESetAdmin (Some b) o = (rp, s') -> r_status rp = 200 ->
     (w_dir s', ROk) = set_admin (w_dir s) (b_username b) (b_admin b) /\ w_cfg s' = w_cfg s /\ w_log s' = w_log s.
-  Admitted.
+  Proof.
+    open_handle; intros [= <- <-] Hst; rsimp_all; try discriminate Hst; auto.
+  Qed.
 
   (* a failed management call (status <> 200) never changes the store *)
   Theorem failure_unchanged s ep bd o rp s' :
     handle s ep bd o = (rp, s') -> r_status rp <> 200 -> w_dir s' = w_dir s /\ w_cfg s' = w_cfg s /\ w_log s' = w_log s.
-  Admitted.
+  Proof.
+    open_handle; intros [= <- <-] Hst; failed_ops; rsimp_all; try (now elim Hst); auto.
+  Qed.
 
   (* a session token is issued only in response to a successful password
      authentication, and names that user and the admin status of the record
@@ -92,12 +146,31 @@ Section W.
       w_log s' = w_log s ++ [{| s_nonce := wo_nonce o; s_ct := wo_ct o;
                                 s_pt := format_token (b_username b) adm (wo_now_s o) |}] /\
       r_session rp = Some (token_text (wo_nonce o) (wo_ct o)) /\ w_dir s' = w_dir s.
-  Admitted.
+  Proof.
+    open_handle; intros [= <- <-] [Hl|Hr]; rsimp_all; try (now elim Hl); try (now elim Hr);
+      (split; [reflexivity|]);
+      match goal with Hg : generate _ _ _ _ _ _ = _ |- _ => unfold generate in Hg; injection Hg as <- <- end;
+      eauto 10.
+  Qed.
 
   (* the configuration is never changed through the API *)
   Theorem config_constant s ep bd o rp s' :
     handle s ep bd o = (rp, s') -> w_cfg s' = w_cfg s.
-  Admitted.
+  Proof.
+    open_handle; intros [= <- <-]; reflexivity.
+  Qed.
+
+  Lemma log_step s ep bd o rp s' :
+    handle s ep bd o = (rp, s') ->
+    w_log s' = w_log s \/
+    exists b adm, ep = EAuth /\ bd = Some b /\
+      w_log s' = w_log s ++ [{| s_nonce := wo_nonce o; s_ct := wo_ct o;
+                                s_pt := format_token (b_username b) adm (wo_now_s o) |}].
+  Proof.
+    open_handle; intros [= <- <-]; rsimp; auto;
+      match goal with Hg : generate _ _ _ _ _ _ = _ |- _ => unfold generate in Hg; injection Hg as <- <- end;
+      right; eauto.
+  Qed.
 
   (* ---- closed under sequences ---- *)
   (* a session accepted at any time was issued by an earlier successful
@@ -107,12 +180,39 @@ Section W.
     forall e, In e (w_log s') -> In e (w_log s) \/
       exists b o adm t, In (EAuth, Some b, o) rs /\
         e = {| s_nonce := wo_nonce o; s_ct := wo_ct o; s_pt := format_token (b_username b) adm t |}.
-  Admitted.
+  Proof.
+    induction rs as [|[[ep bd] o] rs IH]; intros s rps s' H e He.
+    - cbn [run_web] in H. injection H as _ <-. now left.
+    - cbn [run_web] in H.
+      destruct (handle s ep bd o) as [rp s1] eqn:Hh.
+      destruct (run_web kdf life_ms s1 rs) as [rps1 s2] eqn:Hr.
+      injection H as _ <-.
+      destruct (IH _ _ _ Hr e He) as [Hin|(b & o' & adm & t & Hin & Heq)].
+      + destruct (log_step _ _ _ _ _ _ Hh) as [Hsame|(b & adm & -> & -> & Hlog)].
+        * left. now rewrite <- Hsame.
+        * rewrite Hlog in Hin. apply in_app_or in Hin as [Hin|[Hin|[]]]; [now left|].
+          right. exists b, o, adm, (wo_now_s o). split; [now left|]. now symmetry.
+      + right. exists b, o', adm, t. split; [now right|assumption].
+  Qed.
 
   (* a run in which no request is authorised changes nothing and succeeds never *)
   Theorem unauthorised_run_changes_nothing rs : forall s rps s',
     (forall ep b o, In (ep, Some b, o) rs -> authorised s ep b o = false) ->
     run_web kdf life_ms s rs = (rps, s') ->
     s' = s /\ Forall (fun rp => r_status rp <> 200 /\ r_list rp = false /\ r_session rp = None) rps.
-  Admitted.
+  Proof.
+    induction rs as [|[[ep bd] o] rs IH]; intros s rps s' Hall H.
+    - cbn [run_web] in H. injection H as <- <-. split; [reflexivity|constructor].
+    - cbn [run_web] in H.
+      assert (Hh : exists st, handle s ep bd o = (resp st, s) /\ st <> 200).
+      { destruct bd as [b|].
+        - apply unauthorised_refused. apply Hall. now left.
+        - exists 400. split; [apply malformed_refused|discriminate]. }
+      destruct Hh as (st & Hh & Hst). rewrite Hh in H.
+      destruct (run_web kdf life_ms s rs) as [rps1 s2] eqn:Hr.
+      injection H as <- <-.
+      apply IH in Hr; [|intros ep' b' o' Hin; apply Hall; now right].
+      destruct Hr as [-> HF]. split; [reflexivity|].
+      constructor; [|exact HF]. rsimp. auto.
+  Qed.
 End W.
